@@ -2142,7 +2142,10 @@ class TestGraph(object):
                 # ending with an occupied node would mean we wait for a permill of its duration
                 # a test is always tried at least once (zero tries only disable the retries)
                 test_duration = next.params.get_numeric("test_timeout", 3600) * max(
-                    next.params.get_numeric("max_tries", 1), 1
+                    next.params.get_numeric(
+                        "max_tries", 2 if next.params.get("replay") else 1
+                    ),
+                    1,
                 )
                 if next.is_object_root():
                     # each try at creating an object consists of two consecutive test runs
